@@ -1,4 +1,5 @@
 From Coq Require Import Extraction ExtrOcamlBasic.
-From RV Require Import Integrity.Merkle.
+From RV Require Import Integrity.Merkle Integrity.Verdict.
 Extraction Language OCaml.
-Extraction "../ocaml/gen/c12_model.ml" verify read reach cov select recover slot_sum_ok trees_verify walk_depth.
+Extraction "../ocaml/gen/c12_model.ml" verify read reach cov select recover slot_sum_ok trees_verify walk_depth
+  hdr_ok stored_layout len_layout finalize_layout open_stage check_stage full.
